@@ -56,7 +56,10 @@ public:
     {
         //setup( backend._settings._dim );
 
-        BOOST_ASSERT(settings._dim.x && settings._dim.y);
+        // the dimensions come from the file: report an empty image like any other unreadable file
+        io_error_if( settings._dim.x <= 0 || settings._dim.y <= 0
+                   , "Image has an empty dimension."
+                   );
 
         img.recreate( settings._dim.x
                     , settings._dim.y
